@@ -686,6 +686,42 @@ func (c *Ctx) byteTableOf(info *types.Info, x ast.Expr, depth int) (set [256]boo
 		}
 		return set, true
 	case *ast.CallExpr:
+		// an immediately invoked initialiser:  func() (set T) { for i := … { set[CONST[i]] = true }; return set }()
+		if fl, ok := unparen(y.Fun).(*ast.FuncLit); ok && len(y.Args) == 0 && isBoolArray(info.TypeOf(y)) {
+			good, stores := true, 0
+			var chars string
+			ast.Inspect(fl.Body, func(n ast.Node) bool {
+				as, ok := n.(*ast.AssignStmt)
+				if !ok {
+					return true
+				}
+				for i, l := range as.Lhs {
+					ix, ok := unparen(l).(*ast.IndexExpr)
+					if !ok || !isBoolArray(info.TypeOf(ix.X)) {
+						continue
+					}
+					stores++
+					k, ok := unparen(ix.Index).(*ast.IndexExpr)
+					if !ok || i >= len(as.Rhs) || exprString(as.Rhs[i]) != "true" {
+						good = false
+						continue
+					}
+					if tv := info.Types[k.X]; tv.Value != nil && tv.Value.Kind() == constant.String {
+						chars = constant.StringVal(tv.Value)
+					} else {
+						good = false
+					}
+				}
+				return true
+			})
+			if !good || stores != 1 {
+				return set, false
+			}
+			for _, b := range []byte(chars) {
+				set[b] = true
+			}
+			return set, true
+		}
 		if len(y.Args) != 1 {
 			return set, false
 		}
@@ -2395,6 +2431,32 @@ func ruleCTORCHK(c *Ctx) []Obligation {
 						case *ast.CallExpr:
 							if f := calleeOf(info, x); f != nil && f.Pkg() != nil && f.Pkg().Path() == pkgTYP && strings.HasPrefix(f.Name(), "New") {
 								return exprString(x)
+							}
+							// a helper of the package that builds the expected type (selectCondType(t)):
+							// what it returns
+							if f := calleeOf(info, x); f != nil && f.Pkg() != nil && f.Pkg().Path() == path && depth < 3 {
+								if hfd := c.funcDecl(f); hfd != nil && hfd.Body != nil && hfd != fd {
+									hdefs := collectDefs(info, hfd.Body)
+									found := ""
+									ast.Inspect(hfd.Body, func(q ast.Node) bool {
+										r, ok := q.(*ast.ReturnStmt)
+										if !ok || found != "" {
+											return found == ""
+										}
+										for _, res := range r.Results {
+											saved := defs
+											defs = hdefs
+											if s := look(res, depth+1); s != "" {
+												found = s + " (in " + f.Name() + ")"
+											}
+											defs = saved
+										}
+										return true
+									})
+									if found != "" {
+										return found
+									}
+								}
 							}
 						case *ast.UnaryExpr:
 							if _, ok := x.X.(*ast.CompositeLit); ok && x.Op == token.AND {
